@@ -19,6 +19,7 @@ def jobs(pid, tier, seed):
         out.append({"kind": "directed", "name": name, "params": params})
     out += [{"kind": "dirdup", "i": i} for i in range(16)]
     out += [{"kind": "dirdup2", "i": i} for i in range(8)]
+    out += [{"kind": "dirdup3", "i": i} for i in range(4)]
     n = 700 if tier == "quick" else 15000
     out += [{"kind": "dup", "seed": seed * 1000003 + i, "max": 4 if tier == "quick" else 12} for i in range(n)]
     return out
@@ -267,8 +268,44 @@ def dir_hist2(i):
     return b.h
 
 
+def dir_hist3(i):
+    """One side closes while the other stays subscribed; afterwards the closer comes back on a new connection and both
+    go on talking, across several sweeps (whatever the re-sent command's connection touched in memory, the one who
+    stayed is still reachable and its channel still alive)."""
+    from ..scenarios import HB, claimed
+    b = HB()
+    A = b.conn("app", "s1")
+    B = b.conn("app", "s2")
+    if i & 1:
+        b.send(A, type="claim", nameplate="5")
+        b.send(B, type="claim", nameplate="5")
+        mb = claimed(A)
+    else:
+        mb = "mK"
+    b.send(A, type="open", mailbox=mb)
+    b.send(B, type="open", mailbox=mb)
+    b.add(A, "a1")
+    b.add(B, "b1")
+    b.send(A, type="close", mood="happy")
+    b.adv(100)
+    A2 = b.conn("app", "s1")
+    b.send(A2, type="open", mailbox=mb)
+    b.add(A2, "a2")
+    b.adv(700)          # sweeps pass; B (and A2) are subscribed all the time
+    b.add(B, "b2")
+    b.adv(700)
+    b.add(A2, "a3")
+    b.send(B, type="close", mood="happy")
+    b.send(A2, type="close", mood="happy")
+    return b.h
+
+
 def run_job(pid, job, acc):
     import random
+    if job["kind"] == "dirdup3":
+        h = dir_hist3(job["i"])
+        check_history(acc, h, Config(usage=bool(job["i"] & 2)), job["i"], "dirdup3:%d" % job["i"], 50, random.Random(0), both=True)
+        return
     if job["kind"] == "dirdup2":
         h = dir_hist2(job["i"])
         check_history(acc, h, Config(usage=bool(job["i"] % 2)), job["i"], "dirdup2:%d" % job["i"], 50, random.Random(0), both=True)
